@@ -269,8 +269,9 @@ document.addEventListener("paste", (e) => {
   e.preventDefault();
   var text = (e.originalEvent || e).clipboardData.getData("text/plain");
   onPaste(true);
-  for (let i = 0; i < text.length; i++) {
-    onKeyEvent(text.charAt(i), false, false, false, false);
+  // by character, not by UTF-16 code unit: one outside the basic plane is one key
+  for (const ch of text) {
+    onKeyEvent(ch, false, false, false, false);
   }
   onPaste(false);
 });
